@@ -135,3 +135,18 @@ decreasing_by
   · exact Nat.lt_of_le_of_lt (absorb_length_le _ _ _) (by simp; omega)
 
 end SV
+
+namespace SV
+/-! ### All segments of a segmenter, all blocks of a range
+
+`stage.NewStages` / `Stages.NextJob` / the squasher walk a store's segments as
+`for idx := seg.FirstIndex(); idx <= seg.LastIndex(); idx++ { seg.Range(idx) }`; a tier-2 job receives the
+index and runs the blocks `r.StartBlock … r.ExclusiveEndBlock-1` of that `Range` in order. -/
+
+/-- the segments of `s` in index order (indexes without a range contribute nothing) -/
+def Segmenter.segments (s : Segmenter) : List Range :=
+  (List.range' s.firstIndex (s.lastIndex + 1 - s.firstIndex)).filterMap s.range?
+
+/-- the blocks of a range, in order -/
+def Range.blocks (r : Range) : List Nat := List.range' r.start (r.stop - r.start)
+end SV
